@@ -15,6 +15,7 @@
 package ggql
 
 import (
+	"math"
 	"strconv"
 )
 
@@ -41,9 +42,9 @@ func (*floatScalar) CoerceIn(v interface{}) (interface{}, error) {
 	case nil:
 		// remains nil
 	case float64:
-		v = float32(tv)
+		v, err = toFloat32(tv, v)
 	case float32:
-		// ok as is
+		v, err = toFloat32(float64(tv), v)
 	case int32:
 		v = float32(tv)
 	case int64:
@@ -55,6 +56,16 @@ func (*floatScalar) CoerceIn(v interface{}) (interface{}, error) {
 	return v, err
 }
 
+// toFloat32 converts to a float32 if the result is a finite number otherwise a
+// coerce error is returned.
+func toFloat32(f float64, v interface{}) (interface{}, error) {
+	f32 := float32(f)
+	if math.IsNaN(f) || math.IsInf(float64(f32), 0) {
+		return nil, newCoerceErr(v, "Float")
+	}
+	return f32, nil
+}
+
 // CoerceOut coerces a result value into a type for the scalar.
 func (t *floatScalar) CoerceOut(v interface{}) (interface{}, error) {
 	var err error
@@ -62,9 +73,9 @@ func (t *floatScalar) CoerceOut(v interface{}) (interface{}, error) {
 	case nil:
 		// remains nil
 	case float32:
-		// ok as is
+		v, err = toFloat32(float64(tv), v)
 	case float64:
-		v = float32(tv)
+		v, err = toFloat32(tv, v)
 	case int:
 		v = float32(tv)
 	case int8:
@@ -88,7 +99,9 @@ func (t *floatScalar) CoerceOut(v interface{}) (interface{}, error) {
 	case string:
 		var f float64
 		if f, err = strconv.ParseFloat(tv, 64); err == nil {
-			v = float32(f)
+			v, err = toFloat32(f, v)
+		} else {
+			v = nil
 		}
 	default:
 		v = nil
